@@ -291,6 +291,66 @@ func (c *Ctx) equalityReadsDataOnly(prefix string) {
 				}
 			}
 			c.Check(okBytes, prefix+"-equality-is-byte-equality", s.name, fi.Decl.Pos(), "bytes.Equal(lhs.Data.Raw, rhs.Data.Raw)", "revision equality is not byte equality of the data")
+			// the hash label may make two revisions unequal only when both labels parsed as integers (the shape
+			// inherited from upstream): every early `return false` is dominated by non-nil parsed hashes of both sides,
+			// and those are assigned only after a successful strconv parse. Otherwise equality depends on the
+			// collision-count probe baked into the label.
+			fn2 := c.E.FnOf(fi)
+			fn2.KeepDead = true
+			an2 := fn2.Analyze(nil)
+			fn2.KeepDead = false
+			var parsed []*ast.Ident
+			ast.Inspect(fi.Decl.Body, func(x ast.Node) bool {
+				if vs, ok := x.(*ast.ValueSpec); ok && len(vs.Values) == 0 {
+					for _, id := range vs.Names {
+						if _, isPtr := info.TypeOf(id).Underlying().(*types.Pointer); isPtr {
+							parsed = append(parsed, id)
+						}
+					}
+				}
+				return true
+			})
+			nFalse := 0
+			ast.Inspect(fi.Decl.Body, func(x ast.Node) bool {
+				ret, ok := x.(*ast.ReturnStmt)
+				if !ok || len(ret.Results) != 1 || fn2.Formula(ret.Results[0]) != gf.False {
+					return true
+				}
+				nFalse++
+				var conj []*gf.Formula
+				for _, id := range parsed {
+					conj = append(conj, gf.FNotNil(fn2.Term(id)))
+				}
+				name := fmt.Sprintf("%s: return false[%d]", s.name, nFalse)
+				if len(parsed) < 2 {
+					c.Bad(prefix+"-hash-label-only-when-numeric", name, ret.Pos(), "revisions are declared unequal without both hash labels having parsed as integers: equality now depends on the label text (data hash plus collision count), not on the data")
+					return true
+				}
+				c.Implies(an2.StateBefore(ret), gf.And(conj...), prefix+"-hash-label-only-when-numeric", name, ret.Pos())
+				return true
+			})
+			for _, id := range parsed {
+				ast.Inspect(fi.Decl.Body, func(x ast.Node) bool {
+					as, ok := x.(*ast.AssignStmt)
+					if !ok || len(as.Lhs) != 1 || fn2.Term(as.Lhs[0]).Key() != fn2.Term(id).Key() {
+						return true
+					}
+					// dominated by err == nil of a strconv parse in the same block chain
+					okParse := false
+					p := pathTo(fi.Decl.Body, as)
+					for j := len(p) - 1; j >= 0; j-- {
+						if ifs, isIf := p[j].(*ast.IfStmt); isIf {
+							if be, isBE := ast.Unparen(ifs.Cond).(*ast.BinaryExpr); isBE && be.Op.String() == "==" && isNilExpr(info, be.Y) {
+								if src := assignedFromCall(fi, info, be.X); src != nil && strings.HasPrefix(calleeName(info, src), "strconv.Parse") {
+									okParse = true
+								}
+							}
+						}
+					}
+					c.Check(okParse, prefix+"-hash-label-only-when-numeric", s.name+": "+types.ExprString(as.Lhs[0])+" = "+types.ExprString(as.Rhs[0]), as.Pos(), "set only after a successful strconv parse of the label", "a parsed-hash variable is set without a successful numeric parse")
+					return true
+				})
+			}
 		}
 	}
 }
